@@ -1,7 +1,7 @@
 #!/usr/bin/env python3
-"""Self-test of the machinery on a scratch copy of /repo: every patch under selftest/pass must leave all listed checks
-silent (exit 0), every patch under selftest/fail and seeded/*/patch.diff must make its property's check exit 1.
-usage: selftest.py [pass|fail|seeded] [name-filter]"""
+"""Self-test of the machinery on a scratch copy of /repo: every patch under selftest/pass and selftest/harmless (behaviour-
+preserving refactorings written by independent sub-agents) must leave all listed checks silent (exit 0), every patch under selftest/fail and seeded/*/patch.diff must make its property's check exit 1.
+usage: selftest.py [pass|fail|seeded|harmless] [name-filter]"""
 import json, os, subprocess, sys, time, glob
 ENV = dict(os.environ, GOFLAGS="-mod=mod", GOPROXY="off", GOSUMDB="off", GOTOOLCHAIN="local")
 def sh(cmd, cwd=None, timeout=3600):
@@ -23,9 +23,12 @@ PASS_CHECKS = {"rename_locals_base_score": ["C01", "C06"], "extract_helper_explo
                "names_valueof_restructure": ["C18", "C17"], "version_get_switch": ["C20"], "report_temporal_locals": ["C17"], "report_assign_fields": ["C17"],
                "v2_env_decodeone_restructure": ["C08", "C11"], "v2_env_encode_plus": ["C08"], "export_with_restructure": ["C19"],
                "unused_field_added": ["C15", "C09"], "function_moved_file": ["C06", "C12"], "buffer_by_value": ["C19"], "encode_fprintf_writebyte": ["C10"]}
+AREA = {"m31": ["C15", "C20", "C01", "C03"], "m32": ["C15", "C01", "C07", "C10"], "m33": ["C15", "C02", "C03", "C07", "C10", "C14"],
+        "m34": ["C15", "C06", "C01", "C07"], "m35": ["C15", "C04", "C05", "C20", "C08"], "m36": ["C15", "C04", "C05", "C08", "C13"],
+        "m37": ["C15", "C17", "C19"], "m38": ["C15", "C18", "C17"]}
 def run(kind, flt):
     results = []
-    if kind in ("pass", "fail"):
+    if kind in ("pass", "fail", "harmless"):
         items = sorted(glob.glob(f"/verif/selftest/{kind}/*.patch"))
     else:
         items = sorted(glob.glob("/verif/seeded/*/patch.diff"))
@@ -42,6 +45,8 @@ def run(kind, flt):
             results.append((name, "SUITE-FAILS", out[-300:])); continue
         if kind == "pass":
             checks = PASS_CHECKS.get(name, ["C12"])
+        elif kind == "harmless":
+            checks = AREA.get(name.split("_")[0], ["C15"])
         elif kind == "seeded":
             checks = [json.load(open(os.path.join(os.path.dirname(patch), "meta.json")))["property"]]
         else:
@@ -49,7 +54,7 @@ def run(kind, flt):
         for c in checks:
             t0 = time.time()
             rc, out = sh(f"bin/verif check {c} --no-evidence --repo {SCR}", cwd="/verif")
-            ok = (rc == 0) if kind == "pass" else (rc == 1)
+            ok = (rc == 0) if kind in ("pass", "harmless") else (rc == 1)
             viol = [l for l in out.split("\n") if l.startswith("VIOLATION")]
             conf = len([l for l in viol if "no-failing-input-found" not in l])
             results.append((name, c, "OK" if ok else "UNEXPECTED", f"exit={rc} violations={len(viol)} confirmed={conf} {time.time()-t0:.0f}s", (viol[:1] + [""])[0][:160]))
